@@ -38,6 +38,10 @@ class QLFormatter(DataFormatter):
         return bytes(self.ql_header)
 
     def format_message(self, msg: pyrtma.Message) -> bytes:
+        # Record the size of the headers actually written (a client in
+        # timecode mode delivers the longer TimeCodeMessageHeader)
+        self.ql_header.message_header_size = msg.header.size
+
         self.offsets.append(self.ofs)
         self.ofs += msg.data.type_size
 
